@@ -605,6 +605,14 @@ fn judge(p: &Probe) -> Verdict {
             if in_lines[1].contains(l) || in_lines[chosen].contains(l) {
                 continue;
             }
+            // the unterminated last line of base/chosen side ending in CR, completed by "\n" in the output,
+            // reads as that line without the CR: attribute it to base/chosen side, not to the other side
+            let cr_completed = |t: &Vec<u8>| {
+                !t.ends_with(b"\n") && norm_lines(t).last().map_or(false, |last| last.len() == l.len() + 1 && last.ends_with(b"\r") && &last[..l.len()] == l)
+            };
+            if cr_completed(&p.texts[1]) || cr_completed(&p.texts[chosen]) {
+                continue;
+            }
             if !in_lines[other].contains(l) && known(l) {
                 continue; // CR-completed unterminated line, see `known`
             }
